@@ -234,6 +234,39 @@ fn oracle(base: &Context, case: &Case, scratch: &std::path::Path) -> Option<Fail
     if digest(&r.ctx_c) != da {
         return fail("c07-session", format!("state after the single joined input differs: {}", digest_diff(&r.ctx_c, &r.ctx_a)));
     }
+    // A': the same inputs one at a time with the inspection commands `info <name>` and `list` run in between (through
+    // the real command runner): commands are not inputs — they are not saved and must leave the session as it is
+    {
+        let mut ctx_i = base.clone();
+        let mut runner = CommandRunner::<()>::new().print_with(|_| {});
+        let mut known: Vec<String> = Vec::new();
+        for (i, st) in case.stmts.iter().enumerate() {
+            let o = run_input(&mut ctx_i, st);
+            if !o.ok() || o.value != r.a[i].value || o.prints != r.a[i].prints {
+                return fail("c07-session", format!("input {} `{}` gives `{}` (ok={}) after inspection commands, `{}` without them", i, st.replace('\n', NL), o.value, o.ok(), r.a[i].value));
+            }
+            for e in st.lines().flat_map(intro_of) {
+                if let Some(n) = e.strip_prefix("var:").or_else(|| e.strip_prefix("unit:")).or_else(|| e.strip_prefix("fn:")) {
+                    known.push(n.to_string());
+                }
+            }
+            if i % 2 == 0 {
+                if let Some(n) = known.get(i % known.len().max(1)) {
+                    let cmd = format!("info {}", n);
+                    match catch(std::panic::AssertUnwindSafe(|| runner.try_run_command(&cmd, &mut ctx_i, &mut ()).is_ok())) {
+                        Ok(_) => {}
+                        Err(p) => return fail("c07-session", format!("`{}` panics: {}", cmd, p)),
+                    }
+                }
+                if i % 6 == 0 {
+                    let _ = catch(std::panic::AssertUnwindSafe(|| runner.try_run_command("list", &mut ctx_i, &mut ()).is_ok()));
+                }
+            }
+        }
+        if digest(&ctx_i) != da {
+            return fail("c07-session", format!("state after the inputs with `info`/`list` commands in between differs from the state without them: {}", digest_diff(&ctx_i, &r.ctx_a)));
+        }
+    }
     // D: replay of the file written by the real `save`
     let inputs: Vec<String> = parts.iter().map(|p| p.join("\n")).collect();
     let noise = vec![(0usize, "1 m + 1 s".to_string()), (inputs.len() / 2, "  zzz_unknown  ".to_string())];
